@@ -32,7 +32,9 @@ statements `std::char_traits<char>::copy(dest, A, n); dest += n;` with A a names
 first n elements of A (its contents are supplied by the compiler).  A call of _ST_PRIVATE::assert_handler (the expansion
 of ST_ASSERT) ends the function with the result ext_abort = -1.  `if (dest) S` with dest the output cursor is S: a function
 with an output cursor is translated for a non-null output (the null case of cleanup_utf8 / append_chars only skips the
-stores).  char_traits::copy(dest, p, n) with p a pointer into a parameter array appends p[0..n-1].
+stores).  char_traits::copy(dest, p, n) with p a pointer into a parameter array appends p[0..n-1].  A function-local
+`static const char T[] = "..."` is a constant list indexed with nth; a `const void *` parameter is an array of raw
+bytes (seen through the character type it is cast to); static_assert declarations are skipped.
 Anything else makes the translation of that function fail (reported; the obligation that mentions it then no longer
 compiles)."""
 import json
@@ -82,12 +84,13 @@ TARGETS = [
     ('utf8_convert_from_utf16', '_ST_PRIVATE::conversion_error_t (char *, const char16_t *, size_t, ST::utf_validation_t)'),
     ('append_chars', 'size_t (char *&, const char *, size_t)'),
     ('cleanup_utf8', 'size_t (char *, const char *, size_t)'),
+    ('hex_encode', 'void (char *, const void *, size_t) noexcept'),
 ]
 # a pointer parameter that points into the array of another parameter (one past its end): it is passed as an index
 # functions whose first `T *` parameter with a non-const pointee is a write-only cursor (used only as `*p++ = e`)
 PLAIN_CURSOR_FUNCS = ('utf8_convert_from_latin_1', 'utf16_convert_from_utf32', 'utf8_convert_from_utf32', 'utf32_convert_from_utf8',
                       'utf32_convert_from_utf16', 'utf16_convert_from_utf8', 'utf16_convert_from_latin_1', 'utf32_convert_from_latin_1',
-                      'latin_1_convert_from_utf8', 'latin_1_convert_from_utf16', 'latin_1_convert_from_utf32', 'utf8_convert_from_utf16', 'cleanup_utf8')
+                      'latin_1_convert_from_utf8', 'latin_1_convert_from_utf16', 'latin_1_convert_from_utf32', 'utf8_convert_from_utf16', 'cleanup_utf8', 'hex_encode')
 ALIAS_PARAMS = {('extract_utf8', 'end'): 'utf8', ('extract_utf16', 'end'): 'utf16'}
 # a translated function that returns a pointer returns it into the array of this parameter
 RET_BASE_PARAM = 0
@@ -193,6 +196,13 @@ class Translator:
             return self.ptr_expr(inner[0], env)
         if k == 'CXXNullPtrLiteralExpr' or (k == 'ImplicitCastExpr' and n.get('castKind') == 'NullToPointer'):
             return (None, '(-1)')
+        if k == 'CXXStaticCastExpr' and n.get('castKind') == 'BitCast' and \
+                strip_quals(strip_quals((inner[0].get('type') or {}).get('qualType', '')).rstrip('*').strip()) == 'void':
+            to = strip_quals(strip_quals((n.get('type') or {}).get('qualType', '')).rstrip('*').strip())
+            if to not in INT_TYPES or INT_TYPES[to][1] != 8:
+                raise Unsupported('cast of void * to %s *' % to)
+            base, idx = self.ptr_expr(inner[0], env)
+            return ('(fun i_ => %s (%s i_))' % ('wraps 8' if INT_TYPES[to][0] else 'wrapu 8', base), idx)
         if k in ('CXXReinterpretCastExpr', 'CStyleCastExpr') and n.get('castKind') in ('BitCast', 'NoOp'):
             # a view of a byte array through another character type of the same width
             to = strip_quals(strip_quals((n.get('type') or {}).get('qualType', '')).rstrip('*').strip())
@@ -544,6 +554,8 @@ class Translator:
             while base.get('kind') in ('ImplicitCastExpr', 'ParenExpr'):
                 base = base['inner'][0]
             rd = base.get('referencedDecl') or {}
+            if base.get('kind') == 'DeclRefExpr' and rd.get('id') in self.local_arrays:
+                return '(nth (Z.to_nat %s) %s 0)' % (self.expr(idx, env), self.local_arrays[rd['id']])
             if base.get('kind') != 'DeclRefExpr' or rd.get('id') not in env or rd.get('id') not in self.ptr_base:
                 raise Unsupported('subscript of something that is not a pointer into a parameter array')
             off = env[rd['id']]
@@ -782,9 +794,18 @@ class Translator:
             d = inner[0]
             more = dict(s)
             more['inner'] = inner[1:]
+            if d.get('kind') == 'StaticAssertDecl':
+                return self.stmts([more] + rest, env)
             if d.get('kind') != 'VarDecl':
                 raise Unsupported('declaration %s' % d.get('kind'))
             init = [c for c in (d.get('inner') or []) if isinstance(c, dict)]
+            if d.get('storageClass') == 'static' and init and init[0].get('kind') == 'StringLiteral' \
+                    and strip_quals((d.get('type') or {}).get('qualType', '')).startswith('char['):
+                lit = json.loads(init[0]['value']) if init[0].get('value', '').startswith('"') else None
+                if lit is None or any(ord(ch) > 127 for ch in lit):
+                    raise Unsupported('string literal of the local array %s' % d.get('name'))
+                self.local_arrays[d['id']] = '[%s]' % '; '.join('(%d)' % ord(ch) for ch in lit + '\0')
+                return self.stmts([more] + rest, env)
             env = dict(env)
             self.var_names[d['id']] = d['name']
             if not init:
@@ -950,6 +971,7 @@ class Translator:
         self.ptr_base, self.var_names, self.arrays = {}, {}, []
         self.loop_defs, self.loop_count, self.cur_name, self.fuel, self.pending = [], 0, cname or name, 'fuel', None
         self.binds, self.shortcircuit, self.loop_stack, self.ref_ptrs, self.out_cursor = None, 0, [], [], None
+        self.local_arrays = {}
         self.opt = self.fuelled((name, qt))
         for c in n.get('inner', []) or []:
             if c.get('kind') == 'ParmVarDecl':
